@@ -22,7 +22,7 @@ int main(int argc, char** argv)
 		for (int i = 0; i < 3; i++) for (int j = 0; j < 3; j++) { cmp(R(i, j), i == j); cmp(L(i, j), i == j); } }
 	else if (claim == "detmul4") { Matrix4_<double> A, B; for (int i = 0; i < 4; i++) for (int j = 0; j < 4; j++) { A(i, j) = v[4 * i + j]; B(i, j) = v[16 + 4 * i + j]; } cmp((A * B).det(), A.det() * B.det()); }
 	else if (claim == "detmul3") { Matrix3_<double> A, B; for (int i = 0; i < 2; i++) for (int j = 0; j < 3; j++) { A(i, j) = v[3 * i + j]; B(i, j) = v[6 + 3 * i + j]; } cmp((A * B).det(), A.det() * B.det()); }
-	else if (claim == "solve" || claim == "lsq") { int c = claim == "solve" ? n : m; Matrix_<double> A(n, c), b(n, 1); int k = 0;
+	else if (claim == "solve" || claim == "solvediv" || claim == "lsq") { if (claim == "solvediv") claim = "solve"; int c = claim == "solve" ? n : m; Matrix_<double> A(n, c), b(n, 1); int k = 0;
 		for (int i = 0; i < n; i++) { for (int j = 0; j < c; j++) A(i, j) = v[k++]; b(i, 0) = v[k++]; }
 		Matrix_<double> x = solve(A, b);
 		if (claim == "solve") { for (int i = 0; i < n; i++) { double s = 0; for (int j = 0; j < n; j++) s += A(i, j) * x(j, 0); cmp(s, b(i, 0)); } }
@@ -31,5 +31,5 @@ int main(int argc, char** argv)
 		double d1 = fabs(p.w - q.w) + fabs(p.x - q.x) + fabs(p.y - q.y) + fabs(p.z - q.z), d2 = fabs(p.w + q.w) + fabs(p.x + q.x) + fabs(p.y + q.y) + fabs(p.z + q.z); res = d1 < d2 ? d1 : d2; }
 	else if (claim == "quatmat") { Quaternion_<double> q(v[0], v[1], v[2], v[3]); Matrix4_<double> M = q.matrix(), P = M * M.t(); for (int i = 0; i < 3; i++) for (int j = 0; j < 3; j++) cmp(P(i, j), i == j); cmp(M.det(), 1); }
 	printf("residual %g scale %g\n", res, scale);
-	return res > 1e-6 * scale ? 99 : 0;
+	return (res > 1e-6 * scale || res != res) ? 99 : 0;      // NaN (division by a zero pivot) is a failure
 }
